@@ -407,3 +407,100 @@ func (c *Ctx) ruleMultiLevelWildcardParent(id string) {
 	}
 	ru.Check(bad == "" && n > 0, "end of topic in "+c.fname(rec), c.whereF(rec), fmt.Sprintf("%d end-of-topic path(s), each also emits the '#' child", n), bad+map[bool]string{true: "", false: "no end-of-topic path found"}[n > 0 || bad != ""])
 }
+
+// ---- C13-R7: a will given to the dispatcher is handed off directly, whatever its QoS ----
+
+func (c *Ctx) ruleWillHandOff(id string) {
+	ru := c.R.Rule(id, "a will reaches the dispatcher as a PUBLISH with no connection to answer on (writer nil): on every such path the message is given to the publish hand-off exactly once and nothing is registered in the in-flight table — whatever its QoS (a QoS 2 will parked waiting for the dead client's PUBREL is never published)", "E1 scenario rows (packet is a PUBLISH, writer is nil) over the dispatcher with its helpers inlined", 1)
+	q := c.queueAnchors(ru)
+	hs := c.handoffs(ru)
+	proc := c.im(ru, "wasp", "PacketProcessor", "Process")
+	if q == nil || len(hs) == 0 || proc == nil {
+		return
+	}
+	var disp *ssa.Function
+	for _, f := range c.P.Implementations(proc) {
+		if c.P.IsModPkg(f.Package().Pkg) {
+			disp = f
+		}
+	}
+	if !ru.Anchor(disp != nil, "dispatcher") {
+		return
+	}
+	c.R.Fn(c.fname(disp))
+	pktIdx, wIdx := -1, -1
+	for i, p := range disp.Params {
+		if isNamed(p.Type(), pkgPacket, "Packet") {
+			pktIdx = i
+		}
+		if isNamed(p.Type(), "io", "Writer") {
+			wIdx = i
+		}
+	}
+	if !ru.Anchor(pktIdx >= 0 && wIdx >= 0, "packet and writer parameters of the dispatcher") {
+		return
+	}
+	assume := func(p *core.Path, cond ssa.Value, term string) (bool, bool) {
+		if ex, ok := cond.(*ssa.Extract); ok && ex.Index == 1 {
+			if ta, ok := ex.Tuple.(*ssa.TypeAssert); ok && same(ta.X, disp.Params[pktIdx]) {
+				return isNamed(ta.AssertedType, pkgPacket, "Publish"), true
+			}
+		}
+		if bo, ok := cond.(*ssa.BinOp); ok && (bo.Op == token.EQL || bo.Op == token.NEQ) {
+			for _, pair := range [][2]ssa.Value{{bo.X, bo.Y}, {bo.Y, bo.X}} {
+				if k, isK := pair[1].(*ssa.Const); isK && k.Value == nil && same(resolveCell(p, pair[0]), disp.Params[wIdx]) {
+					return bo.Op == token.EQL, true
+				}
+			}
+		}
+		return false, false
+	}
+	isHand := func(cl *core.Call) bool { return c.isHandoffCall(cl, hs) != nil }
+	paths, err := c.pathsInlined(disp, core.PathOpts{Assume: assume}, func(cl *core.Call) bool { return isHand(cl) || cl.Is(q.insert) }, func(g *ssa.Function) bool {
+		for _, h := range hs {
+			if h.fn == g {
+				return true
+			}
+		}
+		return false
+	})
+	if err != nil {
+		ru.Undecided("will rows of "+c.fname(disp), c.whereF(disp), err.Error())
+		return
+	}
+	ru.Evals(len(paths))
+	bad, n := "", 0
+	for _, p := range paths {
+		if _, isRet := p.Exit.(*ssa.Return); !isRet {
+			continue
+		}
+		// only paths that actually decided "writer is nil" (the will scenario)
+		decided := false
+		for _, d := range decisions(p) {
+			if bo, ok := d.Cond.(*ssa.BinOp); ok && (bo.Op == token.EQL || bo.Op == token.NEQ) {
+				for _, pair := range [][2]ssa.Value{{bo.X, bo.Y}, {bo.Y, bo.X}} {
+					if k, isK := pair[1].(*ssa.Const); isK && k.Value == nil && same(resolveCell(p, pair[0]), disp.Params[wIdx]) {
+						decided = true
+					}
+				}
+			}
+		}
+		if !decided {
+			continue
+		}
+		n++
+		hands, inserts := 0, 0
+		for _, pc := range p.Calls() {
+			if isHand(pc.Call) {
+				hands++
+			}
+			if pc.Is(q.insert) {
+				inserts++
+			}
+		}
+		if hands != 1 || inserts != 0 {
+			bad = fmt.Sprintf("with no connection to answer on, the PUBLISH is handed off %d time(s) and registered in flight %d time(s) (want 1, 0): the will waits for an acknowledgement exchange with a client that is gone — %s", hands, inserts, fmtPath(p, c.P))
+		}
+	}
+	ru.Check(bad == "" && n > 0, "will rows of "+c.fname(disp), c.whereF(disp), fmt.Sprintf("%d path(s) with a nil writer, each hands the message off once and registers nothing", n), bad+map[bool]string{true: "", false: "the PUBLISH arm never decides whether there is a connection to answer on"}[n > 0 || bad != ""])
+}
